@@ -90,5 +90,54 @@ CHECKS = {
         "ref": "DESIGN.md §3 C15", "note": TB + " Solver failures are modelled as RuntimeError raised at the clingo.Control seam; single deviations per execution.",
         "technique": "fault and limit enumeration: every crash point / limit value of every operation on every explored diagram state, with a differential resume oracle",
     },
+    "C05": {
+        "text": "Network x partial expansion (7 strategies x every size limit; every state of plain-alphabet histories up to depth 2) x "
+                "completion route (skip_remaining; skip_to_minimal on every subset of stubs; minimal-space expansion with skip_ignored) x "
+                "seed-query order (ascending, descending, all permutations on small diagrams), all executed on the real code; every "
+                "reference attractor must be reported, every seed must lie in an attractor inside its node, and without motif-avoidant "
+                "attractors each attractor exactly once.",
+        "ref": "DESIGN.md §3 C05", "note": TB, "technique": "explicit-state model checking: exhaustive enumeration of inputs, partial-expansion histories, completion routes and query orders",
+    },
+    "C06": {
+        "text": "For every network x non-empty target x strategy x driver bound x forbidden set x skip_feedforward setting, on the fresh "
+                "diagram and on every diagram state reachable by one call of the full alphabet, every intervention reported successful "
+                "is validated: reference LDOI of each override contains the motif, and an explicit-state search of the overridden "
+                "network shows every attractor reachable from the previous trap space has the motif's values; final space vs target.",
+        "ref": "DESIGN.md §3 C06", "note": TB, "technique": "explicit-state model checking: exhaustive argument/history enumeration with explicit-state validation of every reported override",
+    },
+    "C07": {
+        "text": "On fresh diagrams, for every network x every non-empty target x strategy x driver bound {None,0,1,2,3} x forbidden subset x "
+                "successful_only, the returned successions are compared as a multiset with the reference target-directed expansion and "
+                "every step's override list with the reference inclusion-minimal driver sets (reference LDOI).",
+        "ref": "DESIGN.md §3 C07", "note": TB, "technique": "explicit-state model checking: exhaustive input/argument enumeration against a reference control model",
+    },
+    "C08": {
+        "text": "Every (network, diagram state in {stub, fully expanded, skip-completed}, node, 4 option combinations, configuration of a "
+                "grid of small values of the four numeric settings) candidate computation is executed: it must raise RuntimeError or "
+                "return full states inside the node space that hit every reference attractor of the node outside its successors.",
+        "ref": "DESIGN.md §3 C08", "note": TB, "technique": "explicit-state model checking: exhaustive enumeration of inputs, nodes, options and configuration values",
+    },
+    "C12": {
+        "text": "For every network, base state (stub root, every node of the full diagram, skip-completed diagram) and every prefix over "
+                "{cand x4, seeds, sets, reclaim, pickle} up to a depth bound, the attractor sets are enumerated as explicit state sets "
+                "and compared with the reference attractor of the corresponding seed; the symbolic fallback (direct and forced through a "
+                "candidate limit) must describe the same attractors.",
+        "ref": "DESIGN.md §3 C12", "note": TB, "technique": "explicit-state model checking: exhaustive enumeration of inputs, nodes and query histories; VertexSets expanded to explicit state sets",
+    },
+    "C13": {
+        "text": "Work is measured as executed loop back-edges per loop site inside biobalm (sys.monitoring) and bounded by a closed-form "
+                "budget of the state-space and diagram size; every public operation on every input of the universes and on every "
+                "diagram state reachable by one call of the full alphabet must finish below the budget (else it is aborted from inside "
+                "the callback and reported with the loop's file:line); soft and hard timeouts count as violations.",
+        "ref": "DESIGN.md §3 C13", "note": TB + " Bounded termination only: no ranking-function proof beyond the enumerated space.",
+        "technique": "explicit-state model checking with a work monitor: exhaustive enumeration of inputs and call histories, loop back-edge budgets per loop site",
+    },
+    "C16": {
+        "text": "Differential explicit-state check: at every diagram state reachable by one call (quick) / two calls (thorough) of the full "
+                "alphabet a pickle round trip or reclaim_node_data is inserted, followed by every operation of a representative alphabet "
+                "and a closing sequence (bfs, seeds on all nodes, control); return values and the observable diagram after every step "
+                "must equal those of the run without the insertion. Universes include free-input variants.",
+        "ref": "DESIGN.md §3 C16", "note": TB, "technique": "explicit-state model checking: exhaustive insertion points over explored API histories with a differential oracle",
+    },
 }
 NOT_CLAIMED = {f"C{i:02d}": "not claimed yet: check under construction (see DESIGN.md §9 for the build order)" for i in range(1, 21)}
